@@ -303,8 +303,8 @@ VCLAUSE(determinant, 300, 12000, 300000, "n >= 3 and the matrix has pivoting str
 					for(int k = 0; k < n; k++)
 						absab[i][j] += fabsl(L[i][k] * LB[k][j]);
 			long double s2 = row_scale(absab);
-			if(!(s2 < 1e290L))
-				throw Discard();   // generator: the product of two rescaled matrices leaves the range in which its determinant is a double
+			if(!(s2 < 1e290L) || !(s2 > 1e-250L))
+				throw Discard();   // generator: the product of two rescaled matrices leaves the range in which its determinant is a (normal) double
 			long double refp = (g.integer ? laplace(L) : l_det(L)) * (h.integer ? laplace(LB) : l_det(LB));
 			VCLOSE(c, "det_multiplicative", detab, (double) refp, (double) (16.0L * n * n * EPS * s2), "det(A*B) vs det(A)*det(B), B kind=" << h.kind << " B=" << show(h.a));
 			(void) detb;
